@@ -306,14 +306,7 @@ static void t_ato(Src &s, Case &c)
         c.label("alnum_terminator");
     check_parse(k, v, base, casebits, term, tail, with_end);
 }
-#ifdef C07_VARIANT_UCHAR
-// the same target in a build where plain char is unsigned (-funsigned-char, the default on ARM and RISC-V targets —
-// the library's main audience): variant "uchar" of the propdef
-#define C07_ATO_NAME "ato_uchar"
-#else
-#define C07_ATO_NAME "ato"
-#endif
-VP_TARGET(C07_ATO_NAME, t_ato,
+VP_TARGET("ato", t_ato,
           "igris_ato{i,u}{8..64}: canonical text of a boundary-biased value (letters in random case) in base "
           "2..36, followed by any byte that cannot continue the number (+ tail); non-trivial = |value| >= base");
 
